@@ -404,7 +404,7 @@ pub fn replay_trace(sys: &WsSys, tr: &[Act], verbose: bool) -> Result<(), String
 pub fn run(opts: &Opts) -> i32 {
     let rep = Report::new("C15", "model_checking", opts);
     rep.set("exhaustive", true);
-    rep.set("rule", "histories over {create pending/recurring/completed, set status pending/completed/deleted, purge (Delete), rebuild(renumber=false|true), undo, removal/completion arriving by sync from a second replica} on 3-4 tasks, in-memory and SQLite; after every rebuild (explicit, after sync, after undo) the statement's obligations are evaluated against the previous working set; every commit is checked to append newly pending tasks after all numbers in use and move nothing; non-trivial = states whose working set has a gap or an entry whose task is gone or no longer pending");
+    rep.set("rule", "histories over {create pending/recurring/completed, set status pending/completed/deleted, purge (Delete), rebuild(renumber=false|true), undo, removal/completion arriving by sync from a second replica} on 3-4 tasks, in-memory and SQLite, plus one working set of 300 (thorough 1500) tasks; after every rebuild (explicit, after sync, after undo) the statement's obligations are evaluated against the previous working set; every commit is checked to append newly pending tasks after all numbers in use and move nothing; non-trivial = states whose working set has a gap or an entry whose task is gone or no longer pending");
     let q = opts.tier == Tier::Quick;
     let spaces: Vec<(&str, WsSys, usize)> = vec![
         ("mem-3tasks", WsSys::new(Kind::Mem, 3, false), if q { 7 } else { 9 }),
@@ -443,7 +443,64 @@ pub fn run(opts: &Opts) -> i32 {
             ));
         }
     }
+    // a large working set: 300 (thorough 1500) pending tasks created over three commits, every 3rd
+    // completed, every 7th purged; then rebuild without and with renumbering, on both storages
+    for kind in [Kind::Mem, Kind::Sqlite] {
+        let n = if q { 300 } else { 1500 };
+        match large_ws(kind, n) {
+            Ok(k) => rep.add("large_working_set_rebuilds_checked", k),
+            Err(e) => rep.violation(Violation::new(format!("{}:large:{kind:?}", e.split(':').next().unwrap_or("")), e, json!({"kind": "c15-large", "storage": kind, "n": n}))),
+        }
+    }
+    println!("[C15] large working sets rebuilt and checked ({:.1}s)", rep.elapsed());
     rep.finish()
+}
+
+fn large_ws(kind: Kind, n: usize) -> Result<u64, String> {
+    use crate::world::replicas::with_replica;
+    use taskchampion::Operation;
+    let id = |i: usize| Uuid::from_u128(0x15_0000_0000 + i as u128);
+    let ts = super::syncworld::ts(2);
+    let upd = |i: usize, old: Option<&str>, v: &str| Operation::Update { uuid: id(i), property: "status".into(), old_value: old.map(|s| s.to_string()), value: Some(v.into()), timestamp: ts };
+    let mut st = Store::fresh(kind);
+    let mut checked = 0;
+    let commit = |st: &mut Store, o: Vec<Operation>| crate::util::block_on(with_replica(st, crate::world::proxy::Ctl::new(), async |r| r.commit_operations(o).await.map_err(|e| format!("commit-failed: {e:#}"))));
+    for part in 0..3 {
+        let mut o = vec![];
+        for i in (0..n).filter(|i| i % 3 == part) {
+            o.push(Operation::Create { uuid: id(i) });
+            o.push(upd(i, None, "pending"));
+        }
+        let before = obs(&mut st);
+        commit(&mut st, o)?;
+        let after = obs(&mut st);
+        // appended after everything in use, in commit order, nothing moved
+        if after.ws[..before.ws.len()] != before.ws[..] {
+            return Err("append-moved: a commit of new pending tasks moved existing working-set entries".into());
+        }
+        let added: Vec<Uuid> = after.ws[before.ws.len()..].iter().flatten().copied().collect();
+        let want: Vec<Uuid> = (0..n).filter(|i| i % 3 == part).map(id).collect();
+        if added != want {
+            return Err(format!("append-order: {} new pending tasks were appended as {} entries (or in another order than they were made pending)", want.len(), added.len()));
+        }
+    }
+    let mut o = vec![];
+    for i in (0..n).step_by(3) {
+        o.push(upd(i, Some("pending"), "completed"));
+    }
+    for i in (1..n).step_by(7) {
+        o.push(Operation::Delete { uuid: id(i), old_task: Default::default() });
+    }
+    commit(&mut st, o)?;
+    for renumber in [false, true] {
+        let before = obs(&mut st);
+        crate::util::block_on(with_replica(&mut st, crate::world::proxy::Ctl::new(), async |r| r.rebuild_working_set(renumber).await.map_err(|e| format!("rebuild-failed: {e:#}"))))?;
+        st.reopen();
+        let after = obs(&mut st);
+        check_rebuild(&before, &after, renumber).map_err(|e| format!("{e} [working set of {} entries, renumber={renumber}]", before.ws.len()))?;
+        checked += 1;
+    }
+    Ok(checked)
 }
 
 pub fn replay(case: &serde_json::Value) -> Result<(), String> {
